@@ -74,7 +74,7 @@ func (c *cors) configureOrigin() *cors {
 		}
 	} else {
 		// reflect origin
-		if c.isOriginAllowed(requestOrigin, c.options.Origin) {
+		if requestOrigin != "" && c.isOriginAllowed(requestOrigin, c.options.Origin) {
 			c.headers = append(c.headers, &Kv{
 				Key:   "Access-Control-Allow-Origin",
 				Value: requestOrigin,
